@@ -1,8 +1,8 @@
 import AsyncsshModel.Model.ChannelCodec
 /-
   The receive-side text layer of ONE channel endpoint, composed with the byte-level endpoint of
-  `Model/Channel.lean` (asyncssh/channel.py, tree with the repairs 9fcdbb2 "partial character discarded by close"
-  and 7b04301 "each data type on its own"):
+  `Model/Channel.lean` (asyncssh/channel.py, tree with the repairs afe8b9e "partial character discarded by close"
+  and 98283c0 "each data type on its own"):
 
   * `set_encoding` keeps `self._decoders: Dict[DataType, IncrementalDecoder]` — ONE incremental decoder PER DATA
     TYPE, created in its initial state by `_deliver_data` the first time data of that type is delivered
@@ -46,9 +46,9 @@ def decsFinalOk (ds : Decs) : Bool := ds.all (fun p => finalOk (decsGet ds p.1))
 
 /-- which code is modelled -/
 structure Variant where
-  /-- one decoder per data type (since 7b04301) / one per channel (before) -/
+  /-- one decoder per data type (since 98283c0) / one per channel (before) -/
   perType : Bool
-  /-- `_discard_recv` resets the decoders (since 9fcdbb2) -/
+  /-- `_discard_recv` resets the decoders (since afe8b9e) -/
   resetOnDiscard : Bool
   deriving DecidableEq, Repr, Inhabited
 
